@@ -62,7 +62,7 @@ func c38Storm(rec *kit.Rec, r *rig, pre *kit.PreLog) (hung bool) {
 	defer func() { hung = rec.Violations() > v0 }()
 	seed := kit.Seed()
 	K := 16
-	rounds := kit.N(500, 6000)
+	rounds := kit.N(350, 6000)
 	conns := make([]*mycli.Conn, K)
 	for i := range conns {
 		c, err := mycli.Dial(r.Addr(), mycli.Options{User: []string{"ns1_rw", "ns2_rw"}[i%2], Password: "pw_rw", DB: "db", Timeout: c38Watchdog})
